@@ -86,11 +86,24 @@ func TestVerifChildServer(t *testing.T) {
 }
 
 func runC05Cmd(c *vh.Case, spec c05CmdSpec) {
+	if suspect := runC05CmdOnce(c, spec, false); suspect != "" {
+		// What the child recorded depends on its having been scheduled within TerminateDuration after the signal: on a
+		// loaded machine a child can be killed before it has noted the SIGTERM it was sent. A suspicion is therefore
+		// never a verdict: the same scenario is run once more with stages of 5 s, and only what that run shows counts.
+		c.Log.Add("retry-with-long-stages", "suspicion", suspect)
+		spec.TerminateMs = 5000
+		runC05CmdOnce(c, spec, true)
+	}
+}
+
+// runC05CmdOnce runs one scenario. With final unset, an escalation that looks wrong is only reported back as a
+// suspicion (the caller repeats the scenario with long stages); with final set it is a violation.
+func runC05CmdOnce(c *vh.Case, spec c05CmdSpec, final bool) (suspicion string) {
 	log := c.Log
 	dir, err := os.MkdirTemp("", "verif-c05cmd-")
 	if err != nil {
 		c.Inconclusive("tempdir: %v", err)
-		return
+		return ""
 	}
 	defer os.RemoveAll(dir)
 	childLog := filepath.Join(dir, "child.log")
@@ -116,7 +129,7 @@ func runC05Cmd(c *vh.Case, spec c05CmdSpec) {
 		if cmd.Process != nil {
 			cmd.Process.Kill()
 		}
-		return
+		return ""
 	}
 	pid := cmd.Process.Pid
 	defer syscall.Kill(pid, syscall.SIGKILL) // whatever happened: no child is left behind by the harness
@@ -150,7 +163,7 @@ func runC05Cmd(c *vh.Case, spec c05CmdSpec) {
 		}
 		if childSaw("parked") == 0 {
 			c.Inconclusive("the child never reported the parked call")
-			return
+			return ""
 		}
 	}
 	log.Add("close-called", "child", spec.Child, "in_flight", spec.InFlight)
@@ -167,6 +180,9 @@ func runC05Cmd(c *vh.Case, spec c05CmdSpec) {
 	go func() { wg.Wait(); close(closed) }()
 	// three stages (stdin closed, SIGTERM, SIGKILL), each bounded by TerminateDuration
 	budget := 100 * 3 * td // 18..30 s, below the per-case watchdog of the runner
+	if spec.TerminateMs == 5000 {
+		budget = 10 * 3 * td // the repeated run with long stages
+	}
 	if spec.TerminateMs >= 20000 {
 		budget = 35 * time.Second // the child leaves by itself at once; the stages are never meant to run
 	}
@@ -183,12 +199,18 @@ func runC05Cmd(c *vh.Case, spec c05CmdSpec) {
 		} else {
 			c.Inconclusive("Close of a command session overdue after %v (child alive: %v, inside transport Close: %v)", budget, alive(), inTransportClose)
 		}
-		return
+		return ""
 	}
 	// Close has returned: everything below is a fact, not a timing
+	// A child that was sent SIGKILL is gone a moment later, not necessarily by the time Close gives up waiting for it
+	// ("unresponsive subprocess" after one more TerminateDuration); a child nobody killed stays for ever. The 20 s
+	// only bound the wait: wedged, deaf and term children never leave by themselves.
+	for i := 0; i < 2000 && alive(); i++ {
+		time.Sleep(10 * time.Millisecond)
+	}
 	if alive() {
-		c.Violate("child-survived-close/command", "Close returned but the child process %d (%q) is still running", pid, spec.Child)
-		return
+		c.Violate("child-survived-close/command", "Close returned but the child process %d (%q) is still running 20 s later", pid, spec.Child)
+		return ""
 	}
 	terms := childSaw("term")
 	switch spec.Child {
@@ -196,17 +218,23 @@ func runC05Cmd(c *vh.Case, spec c05CmdSpec) {
 		if childSaw("exit") != 1 {
 			c.Violate("escalated-too-early/command", "a child that leaves by itself %s after its stdin closed did not get to its own exit although TerminateDuration is %v (child log: eof=%d exit=%d)",
 				map[string]string{"polite": "at once", "slow": "30 ms"}[spec.Child], td, childSaw("eof"), childSaw("exit"))
-			return
+			return ""
 		}
 	case "term":
 		if terms != 1 {
-			c.Violate("wrong-escalation/command", "a child that leaves on SIGTERM recorded %d SIGTERMs (stdin close seen: %d)", terms, childSaw("eof"))
-			return
+			if !final && terms == 0 {
+				return "no SIGTERM recorded by a child that leaves on SIGTERM"
+			}
+			c.Violate("wrong-escalation/command", "a child that leaves on SIGTERM recorded %d SIGTERMs (stdin close seen: %d, TerminateDuration %v)", terms, childSaw("eof"), td)
+			return ""
 		}
 	case "wedged":
 		if terms < 1 {
-			c.Violate("wrong-escalation/command", "a child that ignores SIGTERM was killed without having been sent SIGTERM first")
-			return
+			if !final {
+				return "no SIGTERM recorded by a child that ignores it"
+			}
+			c.Violate("wrong-escalation/command", "a child that ignores SIGTERM was killed without having been sent SIGTERM first (TerminateDuration %v)", td)
+			return ""
 		}
 	}
 	if spec.InFlight {
@@ -220,6 +248,7 @@ func runC05Cmd(c *vh.Case, spec c05CmdSpec) {
 	c.Count("command_sessions_closed", 1)
 	c.Seen("command_children", fmt.Sprintf("%s/inflight=%v/closers=%d/term_seen=%d", spec.Child, spec.InFlight, spec.Closers, terms))
 	c.Nontrivial("cmd:" + spec.Child + fmt.Sprint(spec.InFlight, spec.Closers) + log.KindSignature())
+	return ""
 }
 
 // closeSpy brackets the Close of the connection a transport produces.
